@@ -1,7 +1,8 @@
 (* C08 — pinned property theorems about the shared TransportService model (coq/Ts). This file
    contains statements, `exact`, and Print Assumptions only. *)
 From Coq Require Import List NArith Bool Sorted.
-From V.Ts Require Import Model Proofs Answers.
+From V.gen Require Consts.
+From V.Ts Require Import Model Proofs Answers Report ReportProofs ReportDead ReportDeadProofs.
 Import ListNotations.
 Open Scope N_scope.
 
@@ -39,14 +40,47 @@ Proof. exact step_conn. Qed.
 Print Assumptions C08_step_view.
 
 (* identifiers returned by open_substream are strictly increasing (hence never reused), also
-   when other services draw from the shared counter in between (EBump), for every history —
-   no environment assumption; usize wrap-around is outside the model *)
+   when other services draw from the shared counter in between (EBump), for every history in
+   which the usize counter does not wrap (nowrap: s_next + draws stays below 2^64 at every step)
+   — no environment assumption; across the wrap see C08_ids_unique_mod_2_64 *)
 Theorem C08_ids_fresh :
   forall tr s,
+  nowrap s tr ->
   StronglySorted N.lt (ret_ids (concat (run s tr))) /\
   Forall (fun i => s_next s <= i) (ret_ids (concat (run s tr))).
 Proof. exact ids_sorted. Qed.
 Print Assumptions C08_ids_fresh.
+
+(* The substream-id counter is a usize: fetch_add wraps modulo 2^64 (ID_MOD), and the model
+   computes it that way. In any history whose inputs can draw at most 2^64 identifiers in total
+   (draws: one per open_substream call, n per EBump n), starting from any counter value, no
+   identifier is returned twice — also across the wrap. *)
+Theorem C08_ids_unique_mod_2_64 :
+  forall tr s,
+  s_next s < ID_MOD -> draws tr <= ID_MOD -> NoDup (ret_ids (concat (run s tr))).
+Proof. exact ids_unique_mod. Qed.
+Print Assumptions C08_ids_unique_mod_2_64.
+
+Theorem C08_id_counter_mod_2_64 :
+  ID_MOD = 2 ^ 64 /\
+  forall s dt e, s_next s < ID_MOD ->
+  exists d, d <= draw_of e /\ s_next (fst (step s dt e)) = (s_next s + d) mod ID_MOD /\
+            (ret_ids (snd (step s dt e)) = [] \/ (ret_ids (snd (step s dt e)) = [s_next s] /\ d = 1)).
+Proof. split; [reflexivity | exact step_draw]. Qed.
+Print Assumptions C08_id_counter_mod_2_64.
+
+(* ChannelClogged: open_substream that finds the primary's command channel full (or is refused
+   earlier) puts nothing in flight, issues no command and returns no identifier — although an
+   identifier has been drawn (C08_id_counter_mod_2_64 with draw_of = 1) and, for a keep-alive
+   protocol, the attempt counted as activity (ka_activity_of) *)
+Theorem C08_channel_clogged :
+  forall s dt p,
+  s_pend (fst (step s dt (EOpenFull p))) = s_pend s /\
+  ret_ids (snd (step s dt (EOpenFull p))) = [] /\
+  (forall c id, ~ In (OCmd c id) (snd (step s dt (EOpenFull p)))) /\
+  (exists r, In (ORet r 0) (snd (step s dt (EOpenFull p))) /\ (r = 1 \/ r = 2 \/ r = 3)).
+Proof. exact open_full_effect. Qed.
+Print Assumptions C08_channel_clogged.
 
 (* an OpenSubstream command is only ever produced by an accepted open_substream(p), carries the
    returned identifier, and goes to the oldest open connection of p (the primary; after the
@@ -66,10 +100,11 @@ Print Assumptions C08_primary_only.
    by the feasibility predicate of the stream theorem) *)
 Theorem C08_answered_at_most_once :
   forall ka T n0 tr,
+  nowrap (init ka T n0) tr ->
   NoDup (ans_ids (concat (run (init ka T n0) tr))) /\
   forall id, In id (ans_ids (concat (run (init ka T n0) tr))) -> n0 <= id.
 Proof.
-  intros ka T n0 tr. destruct (answers_once tr (init ka T n0) (pend_inv_init ka T n0)) as [H1 H2].
+  intros ka T n0 tr NW. destruct (answers_once tr (init ka T n0) (pend_inv_init ka T n0) NW) as [H1 H2].
   split; [exact H1|]. intros id H. destruct (H2 id H) as [[]|L]. exact L.
 Qed.
 Print Assumptions C08_answered_at_most_once.
@@ -77,7 +112,7 @@ Print Assumptions C08_answered_at_most_once.
 (* one step: an answered identifier was in flight before the step and is not afterwards; the set
    in flight only grows by the identifier just returned *)
 Theorem C08_answer_consumes :
-  forall s dt e, pend_inv s -> ans_ok s (fst (step s dt e)) (snd (step s dt e)).
+  forall s dt e, pend_inv s -> nowrap1 s e -> ans_ok s (fst (step s dt e)) (snd (step s dt e)).
 Proof. exact step_ans. Qed.
 Print Assumptions C08_answer_consumes.
 
@@ -105,7 +140,7 @@ Print Assumptions C08_in_flight_until_answered_or_closed.
 
 Theorem C08_open_resolution :
   forall tr s c id,
-  pend_inv s -> In (OCmd c id) (concat (run s tr)) ->
+  pend_inv s -> nowrap s tr -> In (OCmd c id) (concat (run s tr)) ->
   (exists p, pfind id (s_pend (final s tr)) = Some (p, c)) \/
   In id (ans_ids (concat (run s tr))) \/
   exists dt p, In (dt, EClosed p c) tr.
@@ -119,6 +154,7 @@ Print Assumptions C08_open_resolution.
    open has exactly one answer with its own identifier, or its connection was closed; never two. *)
 Theorem C08_open_answered :
   forall tr ka T n0 c id,
+  nowrap (init ka T n0) tr ->
   In (OCmd c id) (concat (run (init ka T n0) tr)) ->
   pfind id (s_pend (final (init ka T n0) tr)) = None ->
   (count_occ N.eq_dec (ans_ids (concat (run (init ka T n0) tr))) id <= 1)%nat /\
@@ -126,6 +162,118 @@ Theorem C08_open_answered :
    exists dt p, In (dt, EClosed p c) tr).
 Proof. exact open_answered. Qed.
 Print Assumptions C08_open_answered.
+
+(* ---- the reporting side of ProtocolSet (bounded per-protocol channels, Report.v) ----
+   For every history of reports and drains, every number of protocols and every capacity: per
+   protocol, what has been received, followed by what is queued, followed by what is still
+   waiting for room, is exactly the sequence of events of the started reports (result code
+   "completed" or "waiting") — nothing is dropped, duplicated or reordered; the queue never
+   exceeds the capacity. (All four report functions wait for room; none uses try_send.) *)
+Theorem C08_report_no_loss :
+  forall l nproto cap p ch,
+  nth_error (r_ch (rfinal (rinit nproto cap) l)) p = Some ch ->
+  got_all p l (rrun (rinit nproto cap) l) ++ rq ch ++ map snd (rw ch) =
+  sent_all p l (rrun (rinit nproto cap) l).
+Proof. exact delivered_prefix. Qed.
+Print Assumptions C08_report_no_loss.
+
+Theorem C08_report_channel_invariant :
+  forall l nproto cap, rinv (rfinal (rinit nproto cap) l).
+Proof. intros l nproto cap. apply rfinal_inv. apply rinit_inv. Qed.
+Print Assumptions C08_report_channel_invariant.
+
+(* delivered after finitely many drain steps: for every capacity >= 1, if after any history the
+   protocol receives one event at a time as many times as its backlog is long, it has received
+   exactly the events of all started reports, each once, in order *)
+Theorem C08_report_delivered :
+  forall rl nproto cap p,
+  (1 <= cap)%nat -> (p < nproto)%nat ->
+  let n := backlog_p (rfinal (rinit nproto cap) rl) p in
+  let rl' := rl ++ repeat (RDrain (N.of_nat p) 1) n in
+  got_all p rl' (rrun (rinit nproto cap) rl') = sent_all p rl (rrun (rinit nproto cap) rl).
+Proof. exact report_all_delivered. Qed.
+Print Assumptions C08_report_delivered.
+
+(* the production capacity (DEFAULT_CHANNEL_SIZE, regenerated from src/lib.rs on every run)
+   satisfies the hypothesis of the delivery theorem *)
+Theorem C08_report_default_capacity :
+  (1 <= N.to_nat V.gen.Consts.DEFAULT_CHANNEL_SIZE)%nat.
+Proof. apply PeanoNat.Nat.leb_le. vm_compute. reflexivity. Qed.
+Print Assumptions C08_report_default_capacity.
+
+(* composition with the service model: the events of protocol p's channel are the inputs of its
+   TransportService. If the answer event for an accepted open (SubstreamOpened{Outbound(id)} or
+   SubstreamOpenFailure{id}) reaches the service after the open — which C08_report_delivered
+   guarantees once the connection task has reported the outcome and the protocol keeps polling —
+   then the open is no longer in flight at the end of any continuation, and it is answered exactly
+   once, or ConnectionClosed for its connection was delivered; never twice. *)
+Theorem C08_answer_event_resolves :
+  forall tr1 dt a tr2 ka T n0 c id,
+  nowrap (init ka T n0) (tr1 ++ (dt, a) :: tr2) ->
+  In (OCmd c id) (concat (run (init ka T n0) tr1)) ->
+  (exists m, a = ESubOut id m) \/ a = ESubFail id ->
+  pfind id (s_pend (final (init ka T n0) (tr1 ++ (dt, a) :: tr2))) = None.
+Proof. exact answer_event_resolves. Qed.
+Print Assumptions C08_answer_event_resolves.
+
+Theorem C08_open_answered_when_delivered :
+  forall tr1 dt a tr2 ka T n0 c id,
+  nowrap (init ka T n0) (tr1 ++ (dt, a) :: tr2) ->
+  In (OCmd c id) (concat (run (init ka T n0) tr1)) ->
+  (exists m, a = ESubOut id m) \/ a = ESubFail id ->
+  let tr := tr1 ++ (dt, a) :: tr2 in
+  (count_occ N.eq_dec (ans_ids (concat (run (init ka T n0) tr))) id <= 1)%nat /\
+  (count_occ N.eq_dec (ans_ids (concat (run (init ka T n0) tr))) id = 1%nat \/
+   exists dt' p, In (dt', EClosed p c) tr).
+Proof. exact open_answered_delivered. Qed.
+Print Assumptions C08_open_answered_when_delivered.
+
+(* ---- a protocol whose receiver is gone (ReportDead.v) ----
+   Without a dead protocol the layer is the base report model, so the theorems above apply. *)
+Theorem C08_report_layer_conservative :
+  forall l s bs,
+  all_base l = Some bs ->
+  dfinal (mkD s [] []) l = mkD (rfinal s bs) [] [] /\ drun (mkD s [] []) l = map lift (rrun s bs).
+Proof. exact drun_nodead. Qed.
+Print Assumptions C08_report_layer_conservative.
+
+(* What the remaining protocols observe when report_connection_established meets a dead protocol
+   (known finding, class 1 = F-C07b): the report fails and the connection is given up; nothing of
+   it is left waiting; every protocol has either been told "established" exactly once — precisely
+   the live protocols polled before the dead one whose channel had room — or nothing at all. *)
+Theorem C08_established_meets_dead_protocol :
+  forall d c mask,
+  d_dead d <> [] -> busy (d_s d) c = false -> existsb (N.eqb c) (d_gone d) = false ->
+  let d' := fst (dstep d (DEst c mask)) in
+  do_code (snd (dstep d (DEst c mask))) = 3 /\
+  d_dead d' = d_dead d /\ d_gone d' = c :: d_gone d /\
+  (forall p ch', nth_error (r_ch (d_s d')) p = Some ch' ->
+     exists ch, nth_error (r_ch (d_s d)) p = Some ch /\ rw ch' = rw ch /\ rdel ch' = rdel ch /\
+       (ch' = ch \/
+        (rq ch' = rq ch ++ [IEst c] /\ racc ch' = racc ch ++ [IEst c] /\
+         N.testbit mask (N.of_nat p) = true /\ is_dead d (N.of_nat p) = false /\
+         rw ch = [] /\ (length (rq ch) < r_cap (d_s d))%nat))).
+Proof. exact est_dead_observation. Qed.
+Print Assumptions C08_established_meets_dead_protocol.
+
+(* ... and "closed" for that connection can only come from an explicit report_connection_closed,
+   which is never issued for a connection that was given up (every report on it is refused) *)
+Theorem C08_no_closed_without_report :
+  forall d o c p ch ch',
+  nth_error (r_ch (d_s d)) p = Some ch -> nth_error (r_ch (d_s (fst (dstep d o)))) p = Some ch' ->
+  (forall b, o <> DBase (RClosed b)) ->
+  ~ In (IClosed c) (racc ch) -> ~ In (IClosed c) (racc ch').
+Proof. exact only_closed_reports_closed. Qed.
+Print Assumptions C08_no_closed_without_report.
+
+(* the witness of the class: protocol 0 dead, protocol 1 polled first — it is told "established"
+   for connection 7, the report fails, a later "closed" report for 7 is refused *)
+Theorem C08_dead_protocol_leak_witness :
+  let l := [DKill 0; DEst 7 2; DBase (RClosed 7); DBase (RDrain 1 9)] in
+  map do_code (drun (dinit 2 2) l) = [0; 3; 2; 0] /\
+  map do_got (drun (dinit 2 2) l) = [[]; []; []; [IEst 7]].
+Proof. vm_compute. split; reflexivity. Qed.
+Print Assumptions C08_dead_protocol_leak_witness.
 
 (* Without C06's "at most two connections per peer" the statement is false: with three, closing
    the ignored third drops the live secondary (secondary.take() on an unknown id), and the
@@ -148,4 +296,21 @@ Example C08_nonvacuous :
   feasible 2 env0 (init true 1000 0) tr = true /\
   concat (run (init true 1000 0) tr) =
   [OEst 7; ORet 0 0; OCmd 1 0; ORet 0 1; OCmd 2 1; OSub 7 (Some 1); OClosed 7].
+Proof. vm_compute. split; reflexivity. Qed.
+
+(* non-vacuity of the report level: one protocol, capacity 1; the established event fills the
+   channel, the failure report waits, a drain lets it through, a second drain delivers it *)
+Example C08_report_nonvacuous :
+  let l := [REst 1; RSubFail 1 0 7; RDrain 0 1; RDrain 0 1] in
+  map o_code (rrun (rinit 1 1) l) = [0; 1; 0; 0] /\
+  map o_got (rrun (rinit 1 1) l) = [[]; []; [IEst 1]; [IFailure 1 7]] /\
+  map o_done (rrun (rinit 1 1) l) = [[]; []; [1]; []].
+Proof. vm_compute. repeat split; reflexivity. Qed.
+
+(* non-vacuity of the wrap: the counter starts 2 below 2^64; four opens return 2^64-2, 2^64-1, 0, 1;
+   a clogged open in between draws an identifier without returning one *)
+Example C08_wrap_nonvacuous :
+  let tr := [(0, EEst 0 1); (0, EOpen 0); (0, EOpen 0); (0, EOpenFull 0); (0, EOpen 0)] in
+  ret_ids (concat (run (init true 1000 (ID_MOD - 2)) tr)) = [ID_MOD - 2; ID_MOD - 1; 1] /\
+  s_next (final (init true 1000 (ID_MOD - 2)) tr) = 2.
 Proof. vm_compute. split; reflexivity. Qed.
